@@ -1,7 +1,8 @@
 """C11 — the WebVTT reader reproduces cues, inline markup and cue-setting geometry.
 
-Theorems: coq/Properties/C11.v (tokenizer round trip for all normal-form token lists, exact timestamps,
-region containment outside the recorded triggers, region sharing).  Ties on every run:
+Theorems: coq/Properties/C11.v (tokenizer round trip for all normal-form token lists, exact timestamps, region
+containment for every list of setting strings, region sharing iff same region value, cue tree with timestamps,
+file-level block splitter incl. NOTE/STYLE/REGION).  Ties on every run:
   * Gen/VttTables.v regenerated from CPython's html module / str methods / ttconv (harness/gen_c11.py);
   * tokenizer M = ttconv.vtt.tokenizer.CueTextTokenizer on generated and mutated cue texts;
   * reader M = ttconv.vtt.reader.to_model on grammar-generated files, mutated files, the bundled .vtt
@@ -15,9 +16,7 @@ import common as C
 import gen_tables
 
 PROP = "C11"
-FINDINGS = {1: "region-not-clamped", 2: "line-number-nonpositive", 3: "vertical-line-center",
-            4: "annotation-charref-alias", 5: "timestamp-span-nesting", 6: "charref-legacy-names-only",
-            7: "ruby-structure"}
+FINDINGS = {7: "ruby-structure"}
 CLAUSES = {1: "S printer and harness printer disagree (harness defect)", 2: "to_model raised", 3: "number of paragraphs differs from the number of cues that have a payload",
            10: "begin/end differ from the printed timestamps", 20: "region leaves the root container or has a negative extent",
            21: "writing mode / text alignment / display alignment of the region is not what the cue settings call for",
@@ -262,7 +261,8 @@ def l_file(f):
 
 
 # ------------------------------------------------------------------------------- generators
-LINES = [None] + [(v, a) for v in (("num", -3), ("num", -1), ("num", 0), ("num", 1), ("num", 5), ("pct", 0), ("pct", 50), ("pct", 100))
+LINES = [None] + [(v, a) for v in (("num", -24), ("num", -23), ("num", -3), ("num", -1), ("num", 0), ("num", 1), ("num", 5), ("num", 23), ("num", 24),
+                                   ("pct", 0), ("pct", 50), ("pct", 100))
                   for a in (None, "start", "center", "end")]
 POSITIONS = [None] + [(p, a) for p in (0, 10, 50, 90, 100) for a in (None, "line-left", "center", "line-right")]
 SIZES = [None, 10, 50, 100]
@@ -282,6 +282,8 @@ def combo(i):
     return st
 
 WORDS = ["hello", "world", "Tom", "a", "I", "café", "日本", "x&y", "1<2", "a>b", "R&D;", "-", "it's", "50%", "q;", "\U0001F600", "l.r", "e/f"]
+VOICES = ["Tom", "Mary Ann", "Dr Who", "Élise", "Tom & Jerry", "R&D", "a<b", "x>y", "AT&T;", "&amp;", "Q&A & more", "&"]
+LANGS = ["en", "fr-CA", "ja", "de", "x-a&b"]
 COLORS = ["white", "lime", "cyan", "red", "yellow", "magenta", "blue", "black"]
 
 def gen_text(rng, multiline=True):
@@ -305,7 +307,7 @@ def ms_to_ts(rng, ms, hours=None):
     return (None, mm, ss, fr)
 
 class CueGen:
-    """cue-text trees; `quota` bounds how many finding-triggering constructs a stream may contain"""
+    """cue-text trees; with `trig` the tree may hold constructs the recorded finding ruby-structure covers"""
     def __init__(self, rng, begin_ms, end_ms, trig):
         self.rng, self.b, self.e, self.trig = rng, begin_ms, end_ms, trig
         self.now = begin_ms; self.n_ts = 0
@@ -316,19 +318,17 @@ class CueGen:
             return ("text", gen_text(rng, multiline))
         if r < 0.55:
             k = rng.random()
-            if k < 0.5: return ("ref", "named", rng.choice(["amp", "lt", "gt", "nbsp"] + (["lrm", "rlm"] if self.trig and rng.random() < 0.3 else [])))
+            if k < 0.5: return ("ref", "named", rng.choice(["amp", "lt", "gt", "nbsp", "lrm", "rlm"]))
             cp = rng.choice([65, 233, 0x3042, 0x1F600, 60, 38, 0x2014])
             return ("ref", "dec" if k < 0.75 else "hex", cp)
-        if r < 0.62 and self.now + 2 < self.e and (self.trig or (not in_tag and self.n_ts == 0)):
+        if r < 0.64 and self.now + 2 < self.e:
             self.now = rng.randrange(self.now + 1, self.e); self.n_ts += 1
             return ("ts", ms_to_ts(rng, self.now))
         kind = rng.choice(["b", "i", "u", "c", "lang", "v"])
         if kind == "c":
             arg = [rng.choice(COLORS + ["bg_" + c for c in COLORS] + ["loud", "x1"]) for _ in range(rng.randrange(0, 4))]
-        elif kind == "lang": arg = rng.choice(["en", "fr-CA", "ja", "de"])
-        elif kind == "v":
-            arg = rng.choice(["Tom", "Mary Ann", "Dr Who", "Élise"])
-            if self.trig and rng.random() < 0.15: arg = rng.choice(["Tom & Jerry", "R&D"])
+        elif kind == "lang": arg = rng.choice(LANGS)
+        elif kind == "v": arg = rng.choice(VOICES)
         else: arg = None
         return ("tag", (kind, arg), self.nodes(depth - 1, True, multiline))
 
@@ -342,6 +342,8 @@ class CueGen:
             if rng.random() < 0.2: base.append(("ref", "named", "amp"))
             if self.trig and rng.random() < 0.15: base = [("tag", ("b", None), [("text", "x")])]
             rt = self.nodes(1, True, multiline=False) if rng.random() < 0.5 else [("text", gen_text(rng, False))]
+            if self.trig and rng.random() < 0.1 and self.now + 2 < self.e:      # a timestamp inside the base: recorded finding
+                self.now = rng.randrange(self.now + 1, self.e); base = [base[0], ("ts", ms_to_ts(rng, self.now)), ("text", "z")]
             segs.append((base, rt))
         return ("ruby", segs)
 
@@ -380,16 +382,17 @@ def sibling_group(rng):
     """cue-setting lists that differ in ONE component while the cue boxes coincide: (family, [settings, ...]).
     Whether two of them must share a region depends on that component alone (display alignment, text alignment and
     writing mode are part of the region; the position alignment is not)."""
-    fam = rng.choice(["line-align", "line-align", "text-align", "vertical", "position-align", "line-form"])
+    fam = rng.choice(["line-align", "line-align", "text-align", "vertical", "position-align", "line-form", "clamped", "clamped"])
     common = []
     if fam == "line-align":
         # line 0% from its start edge = line 50% from its centre = line 100% (or row 23 of 23) from its end edge: the whole height
         if rng.random() < 0.4: common.append(("align", rng.choice(ALIGNS[1:])))
         vs = [[("line", ("pct", 0), None)], [("line", ("pct", 0), "start")], [("line", ("pct", 50), "center")],
               [("line", ("pct", 100), "end")], [("line", ("num", 23), "end")]]
-        if rng.random() < 0.3:      # vertical: the centre alignment is a recorded finding, leave it out
+        if rng.random() < 0.3:      # vertical cues: the line setting moves the x axis, 40 columns
             common.append(("vertical", rng.choice(["lr", "rl"])))
-            vs = [[("line", ("pct", 0), None)], [("line", ("pct", 0), "start")], [("line", ("pct", 100), "end")], [("line", ("num", 40), "end")]]
+            vs = [[("line", ("pct", 0), None)], [("line", ("pct", 0), "start")], [("line", ("pct", 50), "center")], [("line", ("num", 20), "center")],
+                  [("line", ("pct", 100), "end")], [("line", ("num", 40), "end")], [("line", ("num", 41), "end")]]
     elif fam == "text-align":
         if rng.random() < 0.5: common.append(("line", *rng.choice(LINES[1:])))
         if rng.random() < 0.3: common.append(("vertical", rng.choice(["lr", "rl"])))
@@ -406,6 +409,19 @@ def sibling_group(rng):
         common.append(("size", sz))
         if rng.random() < 0.5: common.append(("line", *rng.choice(LINES[1:])))
         vs = [[("position", p, "center")], [("position", p - sz // 2, "line-left")], [("position", p + sz // 2, "line-right")]]
+    elif fam == "clamped":
+        # boxes that coincide only because the box is limited to the root container (size against position, line numbers beyond the grid)
+        k = rng.randrange(4)
+        if k == 0:
+            vs = [[("position", 50, "center"), ("size", 100)], [("position", 0, "line-left"), ("size", 100)], [("position", 100, "line-right"), ("size", 100)]]
+        elif k == 1:
+            vs = [[("position", 10, "center"), ("size", z)] for z in (20, 50, 100)] + [[("position", 20, "line-right"), ("size", 20)], [("position", 0, "line-left"), ("size", 20)]]
+        elif k == 2:
+            vs = [[("line", ("num", n), a)] for n in (23, 24) for a in (None, "start")] + [[("line", ("pct", 100), None)]]
+        else:
+            vs = [[("line", ("num", n), "end")] for n in (-23, -24, 0)] + [[("line", ("pct", 0), "end")]]
+        if rng.random() < 0.4: common.append(("align", rng.choice(ALIGNS[1:])))
+        if k < 2 and rng.random() < 0.3: common.append(("vertical", rng.choice(["lr", "rl"])))
     else:
         if rng.random() < 0.4: common.append(("align", rng.choice(ALIGNS[1:])))
         p = rng.choice([0, 50, 100])
@@ -428,9 +444,10 @@ def gen_file(rng, combos, trig):
     blocks = []; t = rng.choice([0, 0, 1000, 3599000, 36000000])
     for st in combos:
         r = rng.random()
-        if r < 0.12: blocks.append(("note", rng.choice(["this is a comment", "multi\nline comment", "cue --> arrow in a comment is skipped"])))
-        elif r < 0.18: blocks.append(("style", "::cue {\n  background-color: transparent;\n}"))
-        elif r < 0.24: blocks.append(("region", "id:fred\nwidth:40%\nlines:3"))
+        if r < 0.12: blocks.append(("note", rng.choice(["this is a comment", "multi\nline comment", "cue --> arrow in a comment is skipped",
+                                                        "first line\n00:00.000 --> 00:01.000 line:0\nlooks like a cue, is a comment", "STYLE\nNOTE inside"])))
+        elif r < 0.18: blocks.append(("style", rng.choice(["::cue {\n  background-color: transparent;\n}", "::cue(b) { color: red }\n/* 00:00.000 --> 00:01.000 */"])))
+        elif r < 0.24: blocks.append(("region", rng.choice(["id:fred\nwidth:40%\nlines:3", "id:bill\nregionanchor:0%,100%\nviewportanchor:10%,90%\nscroll:up"])))
         st = list(st)
         if rng.random() < 0.3: rng.shuffle(st)
         c, t = gen_cue(rng, t, st, trig)
@@ -439,6 +456,8 @@ def gen_file(rng, combos, trig):
 
 MUT = list("<>&;./ \t\n:-%,0123456789abcirtuvy#x") + ["</b>", "<rt>", "<ruby>", "</ruby>", "-->", "\n\n", "\r\n", "&amp;", "&#x41;", "&notit;", "<00:00:01.000>",
                                                        "NOTE ", "STYLE", "line:", "position:", "size:", "vertical:lr", "align:", "33.5%", "-0", "%", "WEBVTT", "\\n\\r", " ", " "]
+MUT += ["&lrm;", "&apos;", "&ampx;", "&zz;", "&#1;", "&", "<v a&amp;b>", "<lang x&lt;y>", "<c.a.b R&D>", "101%", "100.5%", "100.4%", "150%",
+        "line:-1", "line:0", "line:-30", "line:99,center", "size:98%", "position:0%", "position:100%,line-left", "REGION", "NOTE\n"]
 def mutate(rng, s):
     s = list(s)
     for _ in range(rng.randrange(1, 5)):
@@ -461,8 +480,21 @@ HAND = ["", "WEBVTT", "WEBVTT\n", "\n", "WEBVTT\n\n00:01.000 --> 00:02.000\n", "
         "WEBVTT\n\n100:00:01.000 --> 100:59:59.999\nx\n", "WEBVTT\n\n00:01.000 x 00:02.000 -->\nx\n", "WEBVTT\n\nNOTE\n00:01.000 --> 00:02.000\nx\n",
         "WEBVTT\n\n00:00.000 --> 00:02.000\n<00:01.000>a<00:01.500>b\n", "WEBVTT\n\n00:01.000 --> 00:02.000\n&#1;<c.x>y</c>&#1;<v Bob>z\n",
         "WEBVTT\n\n00:01.000 --> 00:02.000\nline\\n\\rwith raw escapes\n", "WEBVTT\n\n00:01.000 --> 00:02.000 line:-1\nx\n\n00:01.000 --> 00:02.000 line:-1\ny\n",
-        "WEBVTT\n\n00:01.000 --> 00:02.000\n<v Tom &amp; Jerry>hello</v>\n", "WEBVTT\n\n00:01.000 --> 00:02.000\n&#xe9;<lang \n", "WEBVTT\n\n00:01.000 --> 00:02.000\n<lang >x</lang><lang\ten  US >y\n", "WEBVTT\n\n00:01.000 --> 00:02.000\n<b><ruby>a<rt>b</rt></ruby></b>\n"]
+        "WEBVTT\n\n00:01.000 --> 00:02.000\n<v Tom &amp; Jerry>hello</v>\n", "WEBVTT\n\n00:01.000 --> 00:02.000\n&#xe9;<lang \n", "WEBVTT\n\n00:01.000 --> 00:02.000\n<lang >x</lang><lang\ten  US >y\n", "WEBVTT\n\n00:01.000 --> 00:02.000\n<b><ruby>a<rt>b</rt></ruby></b>\n",
+        "WEBVTT\n\n00:01.000 --> 00:02.000 size:100%\nx\n\n00:02.000 --> 00:03.000 size:150%\ny\n\n00:03.000 --> 00:04.000 size:100.4% position:50%\nz\n",
+        "WEBVTT\n\n00:01.000 --> 00:02.000 position:0%\nx\n\n00:02.000 --> 00:03.000 position:120%,line-left\ny\n\n00:03.000 --> 00:04.000 position:30%,bad size:80%\nz\n",
+        "WEBVTT\n\n00:01.000 --> 00:02.000 vertical:rl line:30%,center position:90% size:40%\nx\n\n00:02.000 --> 00:03.000 vertical:lr line:-41,end position:5%,line-right\ny\n",
+        "WEBVTT\n\n00:01.000 --> 00:02.000 line:-23\nx\n\n00:02.000 --> 00:03.000 line:-24,center\ny\n\n00:03.000 --> 00:04.000 line:99999999999999999999\nz\n\n00:04.000 --> 00:05.000 line:101%\nw\n",
+        "WEBVTT\n\n00:10.000 --> 00:20.000\n<00:12.000>a<00:15.000>b<b>c<00:11.000>d</b>e<00:09.000>f<00:25.000>g<0:1>h\n",
+        "WEBVTT\n\n00:10.000 --> 00:20.000\nx<00:12.000><ruby>a<rt>b</rt></ruby>\n\n00:20.000 --> 00:30.000\n<ruby>a<00:22.000>b<rt>c</rt></ruby>\n",
+        "WEBVTT\n\n00:01.000 --> 00:02.000\n<rt>x</rt>y<ruby>a<rt>b</rt></ruby><rt>z</rt>\n", "WEBVTT\n\n00:01.000 --> 00:02.000\n<v a&lrm;b&zz; c&amp>x</v>&apos;&ampx;&#;&\n",
+        "WEBVTT\n\nNOTE\nplain comment\n\nNOTE\twith tab\n00:01.000 --> 00:02.000\nnot a comment\n\nSTYLEX\n00:03.000 --> 00:04.000\nskipped\n\nREGION\nid:a\n\n00:05.000 --> 00:06.000\nshown\n"]
 
+
+# cue texts for the tokenizer alone: references the escaping printer never writes, in the data state and in annotations
+TOK_HAND = ["<v a&lrm;b>x", "<v &apos;x&zz; y>", "<lang a&#65;&#x42;&#;b>", "<c.a &ampx; &amp y>", "<v a&lt;b&gt;c&amp;&amp;d>", "<v a&b>c;d", "<v a&b", "<v a&b;", "<v &>", "<v &;>",
+            "&lrm;&rlm;&apos;&nbsp;&amp;&lt;&gt;&zz;&ampx;&#65;&#x41;&#X41;&#;&#x;&;&", "a&#1;<b>", "&#1;<c.x y>", "&#1;<v.a b&amp;c>", "a & b; c", "&a&amp;",
+            "&" + "a" * 33 + ";", "&amp" + "a" * 29 + ";x", "&amp" + "a" * 30 + ";x", "&NotEqualTilde;&notit;&notin;&#128;&#xD800;&#x110000;&#0;", "<v\ta &amp;\n b>", "<ruby.x &amp;>"]
 
 # ------------------------------------------------------------------------------- writer stream
 def gen_doc(rng):
@@ -586,7 +618,7 @@ def main():
     for k in range(n_gram):
         idx = [order[(pos + j) % N_COMBOS] for j in range(per)]; pos += per
         if rng.random() < 0.25: idx[rng.randrange(len(idx))] = idx[0]          # repeated settings: sharing
-        trig = rng.random() < 0.35
+        trig = rng.random() < 0.12          # the file may hold constructs of the recorded finding (ruby-structure)
         sets = [combo(i) for i in idx]
         if not thorough or rng.random() < 0.5:
             fam, sib = sibling_group(rng); sib_hist[fam] += 1
@@ -605,6 +637,7 @@ def main():
     for f in gram:
         for b in f[1]:
             if b[0] == "cue" and len(cue_texts) < n_tok // 2: cue_texts.append("".join(p_node(n) for n in b[1][4]))
+    cue_texts += TOK_HAND
     base = list(cue_texts) or ["<b>x</b>"]
     while len(cue_texts) < n_tok:
         r = rng.random()
@@ -799,11 +832,14 @@ def main():
         len({t for t in set(texts) | set(mut) | {w[0] for w in written} if "-->" in t})
     run.cov.update(evaluations=n_eval, distinct_nontrivial=distinct,
                    rule="grammar-derived WebVTT files (header variants, NOTE/STYLE/REGION blocks, cues with/without identifier and hours, "
-                        f"settings taken from a shuffled enumeration of the {N_COMBOS} combinations of line {{-3,-1,0,1,5,0%,50%,100%}} x alignment, "
-                        "position x alignment, size, align, vertical, plus in every quick file (every second thorough file) a group of 2-4 cues whose "
-                        "settings differ in one component only - line alignment, text alignment, writing mode, position alignment or the form of "
-                        "the line value - while their boxes coincide; cue-text trees with b/i/u/c.class/lang/v nested to depth 3, ruby/rt, "
-                        "named and numeric character references, inline timestamps, multi-line payloads), each printed by the harness and "
+                        f"settings taken from a shuffled enumeration of the {N_COMBOS} combinations of line {{-24,-23,-3,-1,0,1,5,23,24,0%,50%,100%}} x alignment, "
+                        "position x alignment, size, align, vertical (vertical cues with every line alignment included), plus in every quick file "
+                        "(every second thorough file) a group of 2-4 cues whose settings differ in one component only - line alignment, text alignment, "
+                        "writing mode, position alignment, the form of the line value, or settings whose boxes coincide only after the box is limited to "
+                        "the root container (size against position, line numbers beyond the grid) - while their boxes coincide; cue-text trees with "
+                        "b/i/u/c.class/lang/v nested to depth 3 (voice and language annotations holding &, <, > and reference-like text), ruby/rt, "
+                        "named (amp lt gt nbsp lrm rlm) and numeric character references, any number of inline timestamps inside and outside tags, "
+                        "multi-line payloads; NOTE blocks holding lines with -->, STYLE and REGION blocks), each printed by the harness and "
                         "re-printed by S inside Coq; mutated copies, hand-written malformed files and the bundled .vtt corpus (model = code "
                         "only); outputs of ttconv.vtt.writer.from_model over random documents built with the model API under its 8 "
                         "configurations (model = code, and cues written = cues read); cue texts and mutated cue texts through the tokenizer. "
